@@ -35,35 +35,28 @@ package kmipclient
 //@   ghost cmwRet = r
 //@   ghost cmwErr = e
 
-//@ func (*Client).doRountrip
-//@   requires c != nil
-//@   ensures r1 == nil ==> r0 != nil
-//@   pure
-//@   ghost rtCalls = old(rtCalls) + 1
-//@   ghost rtCtx = ctx
-//@   ghost rtMsg = msg
-//@   ghost rtRet = r0
-//@   ghost rtErr = r1
+
+//@ spec clientOK(c *Client) bool = c != nil && c.lock != nil && c.dialer != nil && lockHeld == 0 && (0 < len(c.middlewares) ==> c.middlewares[0] != nil)
 
 //@ func (*Client).nextAt$1
-//@   requires c != nil && 0 <= i && (i < len(c.middlewares) ==> c.middlewares[i] != nil)
+//@   requires c != nil && c.lock != nil && c.dialer != nil && lockHeld == 0 && 0 <= i && (i < len(c.middlewares) ==> c.middlewares[i] != nil)
 //@   ensures i < len(c.middlewares) ==> cmwCalls == old(cmwCalls)+1 && rtCalls == old(rtCalls) && cmwSelf == c.middlewares[i] && cmwCtx == ctx && cmwMsg == req && r0 == cmwRet && r1 == cmwErr
 //@   ensures i < len(c.middlewares) ==> isclosure(cmwNext, "(*Client).nextAt$1") && capt(cmwNext, "i") == i+1 && capt(cmwNext, "c") == c
 //@   ensures i >= len(c.middlewares) ==> cmwCalls == old(cmwCalls) && rtCalls == old(rtCalls)+1 && rtCtx == ctx && rtMsg == req && r0 == rtRet && r1 == rtErr
 //@   ensures i == old(i) && c == old(c)
 //@   ensures r1 == nil ==> r0 != nil
-//@   ghostmod cmwCalls, cmwSelf, cmwNext, cmwCtx, cmwMsg, cmwRet, cmwErr, rtCalls, rtCtx, rtMsg, rtRet, rtErr
-//@   pure
+//@   ghostmod cmwCalls, cmwSelf, cmwNext, cmwCtx, cmwMsg, cmwRet, cmwErr, rtCalls, rtCtx, rtMsg, rtRet, rtErr, transmissions, dials, lastErrRetryable
+//@   modifies c.conn
 
 // Roundtrip enters the chain at stage 0 with its own arguments.
 //@ func (*Client).Roundtrip
-//@   requires c != nil && (0 < len(c.middlewares) ==> c.middlewares[0] != nil)
+//@   requires clientOK(c)
 //@   ensures 0 < len(c.middlewares) ==> cmwCalls == old(cmwCalls)+1 && cmwSelf == c.middlewares[0] && cmwCtx == ctx && cmwMsg == msg && r0 == cmwRet && r1 == cmwErr
 //@   ensures len(c.middlewares) == 0 ==> rtCalls == old(rtCalls)+1 && cmwCalls == old(cmwCalls) && rtCtx == ctx && rtMsg == msg && r0 == rtRet && r1 == rtErr
 //@   ensures r1 == nil ==> r0 != nil
-//@   ghostmod cmwCalls, cmwSelf, cmwNext, cmwCtx, cmwMsg, cmwRet, cmwErr, rtCalls, rtCtx, rtMsg, rtRet, rtErr
+//@   ghostmod cmwCalls, cmwSelf, cmwNext, cmwCtx, cmwMsg, cmwRet, cmwErr, rtCalls, rtCtx, rtMsg, rtRet, rtErr, transmissions, dials, lastErrRetryable
 //@   ghost sentVersion = old(msg.Header.ProtocolVersion)
-//@   pure
+//@   modifies c.conn
 
 // ---------------------------------------------------------------------------
 // the server is arbitrary (C12, C13): what comes back from the transport is unconstrained except that a
@@ -87,7 +80,7 @@ package kmipclient
 //@   pure
 
 //@ func (*Client).negotiateVersion
-//@   requires c != nil && len(c.supportedVersions) > 0 && (0 < len(c.middlewares) ==> c.middlewares[0] != nil) && globalsInit()
+//@   requires clientOK(c) && len(c.supportedVersions) > 0 && globalsInit()
 //@   ensures old(c.version) != nil ==> r0 == nil && c.version == old(c.version) && notSent(c, old(cmwCalls), old(rtCalls))
 //@   ensures old(c.version) == nil ==> sent(c, old(cmwCalls), old(rtCalls))
 //@   ensures r0 == nil && old(c.version) == nil ==> c.version != nil && contains(c.supportedVersions, *c.version)
@@ -95,8 +88,8 @@ package kmipclient
 //@   ensures r0 == nil && old(c.version) == nil && discovered(lastResp(c)) ==> forall k int :: 0 <= k && k < len(discoverPl(lastResp(c)).ProtocolVersion) && contains(c.supportedVersions, discoverPl(lastResp(c)).ProtocolVersion[k]) ==> verLE(discoverPl(lastResp(c)).ProtocolVersion[k], *c.version)
 //@   ensures old(c.version) == nil && ite(len(c.middlewares) == 0, rtErr, cmwErr) == nil && discovered(lastResp(c)) && (exists k int :: 0 <= k && k < len(discoverPl(lastResp(c)).ProtocolVersion) && contains(c.supportedVersions, discoverPl(lastResp(c)).ProtocolVersion[k])) ==> r0 == nil
 //@   ensures old(c.version) == nil && (ite(len(c.middlewares) == 0, rtErr, cmwErr) == nil) && noDiscovery(lastResp(c)) ==> ite(contains(c.supportedVersions, kmip.V1_0), r0 == nil && *c.version == kmip.V1_0, r0 != nil)
-//@   modifies c.version
-//@   ghostmod cmwCalls, cmwSelf, cmwNext, cmwCtx, cmwMsg, cmwRet, cmwErr, rtCalls, rtCtx, rtMsg, rtRet, rtErr
+//@   modifies c.version, c.conn
+//@   ghostmod cmwCalls, cmwSelf, cmwNext, cmwCtx, cmwMsg, cmwRet, cmwErr, rtCalls, rtCtx, rtMsg, rtRet, rtErr, transmissions, dials, lastErrRetryable
 //@   loop 0 invariant -1 <= rangeindex && rangeindex < len(pl.ProtocolVersion)
 //@   loop 0 invariant best != nil ==> contains(c.supportedVersions, *best) && contains(pl.ProtocolVersion, *best)
 //@   loop 0 invariant forall k int :: 0 <= k && k <= rangeindex && contains(c.supportedVersions, pl.ProtocolVersion[k]) ==> best != nil && verLE(pl.ProtocolVersion[k], *best)
@@ -110,29 +103,29 @@ package kmipclient
 //@   modifies *rm
 
 //@ func (*Client).BatchOpt
-//@   requires c != nil && c.version != nil && (0 < len(c.middlewares) ==> c.middlewares[0] != nil) && len(payloads) <= 2147483647
+//@   requires clientOK(c) && c.version != nil && len(payloads) <= 2147483647
 //@   requires (forall k int :: 0 <= k && k < len(payloads) ==> payloads[k] != nil) && (forall k int :: 0 <= k && k < len(opts) ==> opts[k] != nil)
 //@   ensures sent(c, old(cmwCalls), old(rtCalls)) && sentVersion == *c.version
 //@   ensures r1 == nil ==> len(r0) == len(payloads) && lastResp(c) != nil && int(lastResp(c).Header.BatchCount) == len(payloads) && r0 == lastResp(c).BatchItem
 //@   ensures ite(len(c.middlewares) == 0, rtErr, cmwErr) != nil ==> r1 != nil
-//@   ghostmod cmwCalls, cmwSelf, cmwNext, cmwCtx, cmwMsg, cmwRet, cmwErr, rtCalls, rtCtx, rtMsg, rtRet, rtErr, sentVersion
+//@   ghostmod cmwCalls, cmwSelf, cmwNext, cmwCtx, cmwMsg, cmwRet, cmwErr, rtCalls, rtCtx, rtMsg, rtRet, rtErr, sentVersion, transmissions, dials, lastErrRetryable
 //@   loop 0 invariant -1 <= rangeindex && rangeindex < len(opts) && msg.Header.ProtocolVersion == *c.version && len(msg.BatchItem) == len(payloads)
 
 //@ func (*Client).Batch
 //@   inline
 
 //@ func (*Client).Request
-//@   requires c != nil && c.version != nil && (0 < len(c.middlewares) ==> c.middlewares[0] != nil) && payload != nil
+//@   requires clientOK(c) && c.version != nil && payload != nil
 //@   ensures r1 == nil ==> oneItemResp(lastResp(c)) && lastResp(c).BatchItem[0].ResultStatus == kmip.ResultStatusSuccess && r0 == lastResp(c).BatchItem[0].ResponsePayload
 //@   ensures r1 != nil ==> r0 == nil
-//@   ghostmod cmwCalls, cmwSelf, cmwNext, cmwCtx, cmwMsg, cmwRet, cmwErr, rtCalls, rtCtx, rtMsg, rtRet, rtErr
+//@   ghostmod cmwCalls, cmwSelf, cmwNext, cmwCtx, cmwMsg, cmwRet, cmwErr, rtCalls, rtCtx, rtMsg, rtRet, rtErr, transmissions, dials, lastErrRetryable
 
 //@ spec oneItemResp(r *kmip.ResponseMessage) bool = r != nil && len(r.BatchItem) == 1
 
 // every instantiation Executor[Req, Resp]: a nil error comes with a payload of the response type
 //@ func (Executor[Req, Resp]).ExecContext
-//@   requires ex.client != nil && ex.client.version != nil && (0 < len(ex.client.middlewares) ==> ex.client.middlewares[0] != nil)
-//@   ghostmod cmwCalls, cmwSelf, cmwNext, cmwCtx, cmwMsg, cmwRet, cmwErr, rtCalls, rtCtx, rtMsg, rtRet, rtErr
+//@   requires clientOK(ex.client) && ex.client.version != nil
+//@   ghostmod cmwCalls, cmwSelf, cmwNext, cmwCtx, cmwMsg, cmwRet, cmwErr, rtCalls, rtCtx, rtMsg, rtRet, rtErr, transmissions, dials, lastErrRetryable
 
 // ---------------------------------------------------------------------------
 // connection faults, sequential clauses (C11)
@@ -180,6 +173,12 @@ package kmipclient
 //@   ensures lockHeld == 0
 //@   ensures r1 == nil ==> r0 != nil
 //@   modifies c.conn
+//@   ghostmod transmissions, dials, lastErrRetryable
+//@   ghost rtCalls = old(rtCalls) + 1
+//@   ghost rtCtx = ctx
+//@   ghost rtMsg = msg
+//@   ghost rtRet = r0
+//@   ghost rtErr = r1
 //@   loop 0 invariant 0 <= retry && retry <= 3 && lockHeld == 1 && c.conn != nil
 //@   loop 0 invariant transmissions-old(transmissions) == 3-retry && dials-old(dials) >= 0 && dials-old(dials) <= 4-retry
 //@   loop 0 ghostmod transmissions, dials, lastErrRetryable
